@@ -185,12 +185,22 @@ func (r *Reader) Info() (*Info, error) {
 	if r.rs == nil {
 		return nil, fmt.Errorf("cannot get info from non-seekable reader")
 	}
+	// reading the summary section moves the stream: remember where it stands and go back there
+	// afterwards, so that a sequential read that follows starts where it would have without Info.
+	pos, err := r.rs.Seek(0, io.SeekCurrent)
+	if err != nil {
+		return nil, fmt.Errorf("failed to get current stream position: %w", err)
+	}
 	it := r.indexedMessageIterator(&ReadOptions{
 		UseIndex: true,
 	})
-	err := it.parseSummarySection()
+	err = it.parseSummarySection()
 	if err != nil {
 		return nil, err
+	}
+	_, err = r.rs.Seek(pos, io.SeekStart)
+	if err != nil {
+		return nil, fmt.Errorf("failed to seek back after reading the summary: %w", err)
 	}
 	info := &Info{
 		Statistics:        it.statistics,
